@@ -14,6 +14,9 @@ RULES = {
     'FIFO-END': 'element buffers, metadata containers and queues add at one end and take from the other (FIFO queue classes)',
     'SWAP-ATOMIC': 'a flushed buffer is read and reset before it is emitted: no suspension and no (re-entrant) emission lies '
                    'between the read and the reset',
+    'FRESH-READ': 'what an emission is built from a field is read after the last update of that field on the path (no stale '
+                  'snapshot taken before the element at hand was stored)',
+    'TIMEDELTA-TOTAL': 'durations are converted with total_seconds(), never with the .seconds/.microseconds components',
     'STATE-PER-INSTANCE': 'node state is per instance: no mutable default argument or class-level container ends up as (or is '
                           'mutated as) a node\'s buffer',
     'PAIRED-BUFFER': 'an element buffer and its metadata twin are mutated in lock-step (same paths, same order)',
@@ -405,6 +408,79 @@ def check_swap_atomic(ctx, R, classes):
                      'self.%s is read and emitted, and only afterwards reset: elements that arrive while the emission is in '
                      'progress (during a suspension, or re-entrantly through a feedback edge) are lost' % f,
                      ctx.where(fn, line), fmt_path(evs) if evs else None)
+
+
+def check_fresh_read(ctx, R, classes):
+    for cls in classes:
+        fields = set(element_buffers(ctx, cls)) | set(md_containers(ctx, cls))
+        # containers only (filled by append/extend/setitem/put): a scalar state such as accumulate.state is
+        # legitimately read before it is replaced
+        containers = set()
+        for mname, fn in cls.methods.items():
+            if mname == '__init__':
+                continue
+            for st, status in ctx.paths(fn, cls):
+                for e in st.events:
+                    if e.kind == 'ST' and e.a in fields and e.c in ('append', 'extend', 'setitem', 'put', 'put_nowait', 'add'):
+                        containers.add(e.a)
+        fields &= containers
+        if not fields:
+            continue
+        for mname, fn in cls.methods.items():
+            if mname == '__init__':
+                continue
+            acc = {}
+            for st, status in ctx.paths(fn, cls):
+                evs = st.events
+                for i, e in enumerate(evs):
+                    if e.kind != 'EM' or e.depth != 0:
+                        continue
+                    for which, tags in (('data', e.x.get('data_tags') or ()), ('metadata', e.b or ())):
+                        for t in tags:
+                            if not t.startswith('field:') or t[6:] not in fields:
+                                continue
+                            f = t[6:]
+                            reads = [j for j in range(i) if evs[j].kind == 'RD' and evs[j].a == f]
+                            if not reads:
+                                continue
+                            last = reads[-1]
+                            # the emission's own argument evaluation reads at the EM line; a snapshot bound to a local
+                            # earlier is stale if the field was stored into after that read
+                            stale = [x for x in evs[last + 1:i] if x.kind == 'ST' and x.a == f and x.c in (
+                                'setitem', 'assign', 'append', 'extend', 'put', 'add') and not (x.x or {}).get('empty')
+                                and x.c != 'reset']
+                            key = (which, f)
+                            cur = acc.get(key)
+                            if cur is None or (cur[0] and stale):
+                                acc[key] = (not stale, e.line, evs if stale else None)
+            for (which, f), (ok, line, evs) in acc.items():
+                R.ob('FRESH-READ', ctx.construct(fn), '%s<-%s' % (which, f), ok,
+                     'the %s of an emission is built from a snapshot of self.%s taken before self.%s was updated for the '
+                     'element being emitted' % (which, f, f), ctx.where(fn, line), fmt_path(evs) if evs else None)
+
+
+def check_timedelta_total(ctx, R, modules=('streamz.core', 'streamz.sources', 'streamz.sinks', 'streamz.dataframe.core')):
+    bad = []
+    n = 0
+    for fn in ctx.model.all_funcs():
+        if fn.module.name not in modules:
+            continue
+        for x in own_nodes(fn.node):
+            if isinstance(x, ast.Call) and isinstance(x.func, ast.Attribute) and x.func.attr == 'total_seconds':
+                n += 1
+            if isinstance(x, ast.Attribute) and x.attr in ('seconds', 'microseconds', 'days') and isinstance(x.ctx, ast.Load) \
+                    and not (isinstance(x.value, ast.Name) and x.value.id == 'self'):
+                bad.append((fn, x))
+    R.ob('TIMEDELTA-TOTAL', 'streamz', 'durations', not bad and n >= 1,
+         'a duration is converted through its .%s component (drops whole days / sub-second part): %s' % (
+             bad[0][1].attr if bad else '?', ', '.join('%s:%d' % (f.qual, x.lineno) for f, x in bad)),
+         ctx.where(bad[0][0], bad[0][1].lineno) if bad else None, None, n)
+    ci = ctx.model.function('streamz.core', 'convert_interval')
+    rets = [r for r in own_nodes(ci.node) if isinstance(r, ast.Return)]
+    ok = any(isinstance(a, ast.Assign) and isinstance(a.value, ast.Call) and isinstance(a.value.func, ast.Attribute)
+             and a.value.func.attr == 'total_seconds' for a in own_nodes(ci.node)) and all(src(r.value) == 'interval' for r in rets)
+    R.ob('TIMEDELTA-TOTAL', ctx.construct(ci), 'convert_interval', ok,
+         'convert_interval does not turn a string interval into Timedelta(...).total_seconds()', ctx.where(ci, ci.node.lineno))
 
 
 def _mutable_value(n):
@@ -866,6 +942,37 @@ def check_mailbox(ctx, R, classes):
                         any(x.kind == 'TK' and x.a in W for x in seg[:i])
                     if not consumed:
                         bad = evs
+            # (c) every store into the message slot is followed by a notification, unconditionally
+            for nname in notifiers:
+                nfn = cls.methods[nname]
+                badn, nn = None, 0
+                for st, status in ctx.paths(nfn, cls):
+                    evs = st.events
+                    stores = [i for i, e in enumerate(evs) if e.kind == 'ST' and e.a in W and e.c == 'assign' and not e.x.get('empty')]
+                    if not stores or is_failure(evs, status):
+                        continue
+                    nn += 1
+                    notified = any((e.kind == 'DEFER' and e.c and 'notify' in e.c) or
+                                   (e.kind == 'CALL' and e.c in ('notify', 'notify_all')) for e in evs[stores[0]:])
+                    if not notified:
+                        badn = evs
+                R.ob('MAILBOX', ctx.construct(nfn), 'notify-on-every-store', badn is None and nn > 0,
+                     'a path stores a new element into the slot without notifying the forwarding coroutine: it can sleep for '
+                     'ever on an occupied slot', ctx.where(nfn, nfn.node.lineno), fmt_path(badn) if badn else None, nn)
+                # (d) the slot wraps the element, so that no element value can look like "empty"
+                bare = None
+                for st, status in ctx.paths(nfn, cls):
+                    for e in st.events:
+                        if e.kind == 'ST' and e.a in W and e.c == 'assign' and isinstance(e.x.get('value'), ast.Name) \
+                                and e.b == frozenset({'x'}):
+                            tested = any(self_field(x) == e.a for w_ in waits for l in loops if any(w_ is y for y in ast.walk(l))
+                                         for x in ast.walk(l.test))
+                            if tested:
+                                bare = (e, st.events)
+                R.ob('MAILBOX', ctx.construct(nfn), 'slot-wraps-element', bare is None,
+                     'the bare element is stored in the slot whose emptiness the forwarding coroutine tests: an element equal '
+                     'to the empty marker (None / falsy) is indistinguishable from "no element"',
+                     ctx.where(nfn, bare[0].line) if bare else None, fmt_path(bare[1]) if bare else None)
             R.ob('MAILBOX', con, 'consume-on-read', bad is None and n > 0,
                  'the message slot is not emptied when taken: a second queued notification re-delivers the same element',
                  ctx.where(fn, fn.node.lineno), fmt_path(bad) if bad else None, n)
